@@ -75,14 +75,50 @@ def check(c):
                          'TASK_OUTPUT_SUCCEEDED, [])'))
         c.ob('C31.next-child', c.key(n, gc)[:100] + ' under :succeeded', ok,
              c.where(n, gc), '')
-    na = c.find(gc, 'nexts.append(nxt)')
-    for n in na:
-        c.guard('C31.next-child', n, ['nxt is not None'], gc)
-    nx = [n for n in c.idx.walk(gc.node) if isinstance(n, ast.Assign)
-          and norm(n.targets[0]) == 'nxt']
-    c.ob('C31.next-child', f'{gc.fq} :: nxt = seq.get_next_point(point)',
-         len(nx) == 1 and norm(nx[0].value) == 'seq.get_next_point(point)',
-         c.where(gc.node, gc), '')
+    # `nexts` = the next point of every sequence of the task, None dropped;
+    # as a loop with append or as a comprehension, whatever the names
+    nps = c.find(gc, '_.get_next_point(point)')
+    c.exactly('C31.next-child', 'get_next_point(point) in '
+              'generate_graph_children', len(nps), 1)
+    for n in nps:
+        srcs = set()
+        cur = n
+        while id(cur) in c.idx.parent and cur is not gc.node:
+            cur = c.idx.parent[id(cur)]
+            if isinstance(cur, ast.For):
+                srcs.add((norm(cur.target), norm(cur.iter)))
+            elif isinstance(cur, (ast.ListComp, ast.GeneratorExp,
+                                  ast.SetComp)):
+                srcs |= {(norm(g.target), norm(g.iter))
+                         for g in cur.generators}
+        recv = norm(n.func.value)
+        c.ob('C31.next-child', c.key(n, gc)[:110] + ' for every sequence of '
+             'the task', (recv, 'tdef.sequences') in srcs, c.where(n, gc),
+             f'{sorted(srcs)}')
+        c.guard('C31.next-child', n, ['tdef.sequential'], gc)
+    # every way a value gets into `nexts` drops None
+    adds = [a for a in c.calls(gc, 'append') if norm(a.func.value) == 'nexts']
+    for a in adds:
+        c.guard('C31.next-child', a, [f'{norm(a.args[0])} is not None'], gc)
+        defs = [d for d in c.idx.walk(gc.node) if isinstance(d, ast.Assign)
+                and norm(d.targets[0]) == norm(a.args[0])]
+        c.ob('C31.next-child', c.key(a, gc) + ' appends the next point',
+             any(d.value is n for d in defs for n in nps) or any(
+                 a.args[0] is n for n in nps), c.where(a, gc), '')
+    comps = [n for n in c.idx.walk(gc.node) if isinstance(n, ast.Assign)
+             and norm(n.targets[0]) == 'nexts' and isinstance(
+                 n.value, (ast.ListComp, ast.SetComp))]
+    for n in comps:
+        g = n.value
+        filt = [norm(i) for gen in g.generators for i in gen.ifs]
+        c.ob('C31.next-child', c.key(n, gc)[:110] + ' drops None',
+             f'{norm(g.elt)} is not None' in filt, c.where(n, gc),
+             f'filters {filt}')
+        c.ob('C31.next-child', c.key(n, gc)[:110] + ' collects the next '
+             'points', any(x is p for x in ast.walk(g) for p in nps),
+             c.where(n, gc), '')
+    c.floor('C31.next-child', 'ways of filling nexts', len(adds) + len(comps),
+            1)
     ip = c.func('taskdef', 'TaskDef.is_parentless')
     rf = [r for r in c.idx.walk(ip.node) if isinstance(r, ast.Return)
           and norm(r.value) == 'False']
